@@ -18,6 +18,7 @@ type decCase struct {
 	Kind    string          `json:"kind"`
 	Bytes   []int           `json:"bytes"`
 	Prev    []int           `json:"prev"`
+	Hist    [][]int         `json:"hist"` // inputs decoded into the used receivers before prev (any outcome)
 	Class   string          `json:"class"`
 	Want    json.RawMessage `json:"p"`
 	WantN   int             `json:"n"`
@@ -69,9 +70,14 @@ func runDecode(raw json.RawMessage, w *Writer) {
 	hfresh := decodeHeader(fh, cloneBytes(b))
 	// used receivers: decode the earlier input first (whatever its outcome)
 	up := &rtp.Packet{}
+	uh := &rtp.Header{}
+	for _, h := range c.Hist {
+		hb := bytesOf(h)
+		guard(func() { _ = up.Unmarshal(cloneBytes(hb)) })
+		guard(func() { _, _ = uh.Unmarshal(cloneBytes(hb)) })
+	}
 	guard(func() { _ = up.Unmarshal(cloneBytes(prev)) })
 	used := decodePacket(up, cloneBytes(b))
-	uh := &rtp.Header{}
 	guard(func() { _, _ = uh.Unmarshal(cloneBytes(prev)) })
 	hused := decodeHeader(uh, cloneBytes(b))
 	e["fresh"], e["used"], e["hfresh"], e["hused"] = fresh.ev(), used.ev(), hfresh.ev(), hused.ev()
